@@ -68,6 +68,11 @@ ERRS = [
     ('sameTimestamp', 'SameTimestamp', 'Update had same timestamp as last processed update'),
     ('noChannelsForNode', 'NoChannelsForNode', 'No existing channels for node_announcement'),
     ('rgsStale', 'RgsStale', 'Rapid Gossip Sync data is more than two weeks old'),
+    # asynchronous UTXO lookups (utxo.rs)
+    ('alreadyChecking', 'AlreadyChecking', 'Channel announcement is already being checked'),
+    ('checkingAsync', 'CheckingAsync', 'Channel being checked async'),
+    ('awaitingChanUpd', 'AwaitingChanUpd', 'Awaiting channel_announcement validation to accept channel_update'),
+    ('awaitingNodeAnn', 'AwaitingNodeAnn', 'Awaiting channel_announcement validation to accept node_announcement'),
 ]
 # the node-announcement variant of the same-timestamp text (same class)
 ALT = {'sameTimestamp': ['Update had the same timestamp as last processed update']}
@@ -383,6 +388,139 @@ def main(out_path):
     L.append('  let direction := %s' % emr.e(parse_expr(m.group(1))))
     L.append('  !%s' % Em(env={'direction': 'direction'}).e(parse_expr(m.group(2))))
     L.append('')
+    # ------------------------------------------------------------------ asynchronous UTXO lookups (utxo.rs)
+    utxo_all = rd('lightning/src/routing/utxo.rs')
+    cut = utxo_all.find('#[cfg(test)]\nmod tests')
+    need(cut > 0, "test module marker of utxo.rs not found")
+    utxo = utxo_all[:cut]
+    # -- which entry points verify signatures BEFORE a message can be parked
+    _, _, body = find_fn(src, 'update_channel_internal')
+    b = norm(body)
+    p_hold = b.find('self.pending_checks.check_hold_pending_channel_update(msg, full_msg)?;')
+    p_sig = b.find('secp_verify_sig!(self.secp_ctx, &msg_hash, &sig, &node_pubkey, "channel_update");')
+    need(p_hold > 0 and p_sig > 0 and b.count('check_hold_pending_channel_update') == 1 and b.count('secp_verify_sig!') == 1, "update_channel_internal: hold / signature check sites")
+    L.append('/-- update_channel_internal: is the signature of a channel_update checked BEFORE it can be parked by')
+    L.append('    check_hold_pending_channel_update? (position of secp_verify_sig! < position of the hold call) -/')
+    L.append('def holdUpdAfterSigCheck : Bool := %s' % ('true' if p_sig < p_hold else 'false'))
+    L.append('')
+    _, _, body = find_fn(src, 'update_node_from_announcement')
+    b = norm(body)
+    p_v = b.find('verify_node_announcement(msg, &self.secp_ctx)?;')
+    p_i = b.find('self.update_node_from_announcement_intern(&msg.contents, Some(&msg))')
+    need(p_v > 0 and p_i > 0, "update_node_from_announcement: verify / intern calls")
+    _, _, body = find_fn(src, 'update_node_from_announcement_intern')
+    bi = norm(body)
+    rx(r'match nodes\.get_mut\(&msg\.node_id\) \{ None => \{ core::mem::drop\(nodes\); self\.pending_checks\.check_hold_pending_node_announcement\(msg, full_msg\)\?; Err\(LightningError \{ err: "No existing channels for node_announcement"', bi,
+       'unknown-node arm of update_node_from_announcement_intern (the only hold site)')
+    need(bi.count('check_hold_pending_node_announcement') == 1 and 'check_hold_pending_node_announcement' not in b, "node announcement hold site moved")
+    L.append('/-- update_node_from_announcement: verify_node_announcement precedes update_node_from_announcement_intern, whose')
+    L.append('    unknown-node arm is the only place that parks a node_announcement -/')
+    L.append('def holdNodeAnnAfterSigCheck : Bool := %s' % ('true' if p_v < p_i else 'false'))
+    L.append('')
+    _, _, body = find_fn(src, 'update_channel_from_announcement')
+    b = norm(body)
+    p_pre = b.find('self.pre_channel_announcement_validation_check(&msg.contents, utxo_lookup)?;')
+    p_v = b.find('verify_channel_announcement(msg, &self.secp_ctx)?;')
+    p_i = b.find('self.update_channel_from_unsigned_announcement_intern(&msg.contents, Some(msg), utxo_lookup)')
+    need(0 < p_pre < p_v and p_i > 0, "update_channel_from_announcement: pre-check / verify / intern")
+    L.append('/-- update_channel_from_announcement: verify_channel_announcement precedes ..._intern (which calls')
+    L.append('    check_channel_announcement, the only place that parks a channel_announcement) -/')
+    L.append('def parkChanAnnAfterSigCheck : Bool := %s' % ('true' if p_v < p_i else 'false'))
+    L.append('')
+    _, _, body = find_fn(src, 'update_channel_from_unsigned_announcement')
+    b = norm(body)
+    need(b.find('self.pre_channel_announcement_validation_check(&msg, utxo_lookup)?;') > 0 and b.find('self.update_channel_from_unsigned_announcement_intern(msg, None, utxo_lookup)') > 0, "update_channel_from_unsigned_announcement")
+    # -- the public signed / unsigned update entry points
+    _, _, body = find_fn(src, 'update_channel')
+    m = rx(r'^\{ self\.update_channel_internal\(&msg\.contents, Some\(&msg\), (Some\(&msg\.signature\)|None), (true|false)\) \}$', norm(body), 'NetworkGraph::update_channel')
+    upd_channel = (m.group(1) != 'None', m.group(2) == 'false')
+    _, _, body = find_fn(src, 'update_channel_unsigned')
+    rx(r'^\{ self\.update_channel_internal\(msg, None, None, false\) \}$', norm(body), 'NetworkGraph::update_channel_unsigned')
+    L.append('/-- NetworkGraph::update_channel passes the signature (`Some(&msg.signature)`) to update_channel_internal -/')
+    L.append('def updateChannelVerifies : Bool := %s' % ('true' if upd_channel[0] else 'false'))
+    L.append('')
+    # -- check_hold_pending_channel_update
+    _, _, body = find_fn(utxo, 'check_hold_pending_channel_update')
+    b = norm(body)
+    emh = Em(env={'latest_update': 'latest_update', 'latest_announce': 'latest_announce', 'node_id_1': 'node_id_1'},
+             methods={'timestamp': lambda r, a: r, 'node_id_1': lambda r, a: 'node_id_1'},
+             fields=FIELDS(['channel_flags', 'timestamp', 'node_id']))
+    m = rx(r'if let hash_map::Entry::Occupied\(e\) = pending_checks\.channels\.entry\(msg\.short_channel_id\) \{ let is_from_a = (.*?); match Weak::upgrade\(e\.get\(\)\) \{ Some\(msgs_ref\) => \{ let mut messages = msgs_ref\.lock\(\)\.unwrap\(\); let latest_update = if is_from_a \{ &mut messages\.latest_channel_update_a \} else \{ &mut messages\.latest_channel_update_b \}; if (.*?) \{ \*latest_update = Some\(if let Some\(msg\) = full_msg \{ ChannelUpdate::Full\(msg\.clone\(\)\) \} else \{ ChannelUpdate::Unsigned\(msg\.clone\(\)\) \}\); \} return Err\(LightningError \{ err: "Awaiting channel_announcement validation to accept channel_update"', b,
+           'check_hold_pending_channel_update')
+    emit('holdUpdIsA', '(channel_flags : Nat)', 'Bool', m.group(1), emh, 'check_hold_pending_channel_update: slot latest_channel_update_a')
+    emit('holdUpdReplaces', '(latest_update : Option Nat) (timestamp : Nat)', 'Bool', m.group(2), emh, 'check_hold_pending_channel_update: the parked update is (re)placed (argument = timestamp of the parked one)')
+    need(b.rstrip().endswith('None => { e.remove(); }, } } Ok(()) }'), "check_hold_pending_channel_update: tail changed")
+    # -- check_hold_pending_node_announcement
+    _, _, body = find_fn(utxo, 'check_hold_pending_node_announcement')
+    b = norm(body)
+    m = rx(r'if let hash_map::Entry::Occupied\(mut e\) = pending_checks\.nodes\.entry\(msg\.node_id\) \{ let mut found_at_least_one_chan = false; e\.get_mut\(\)\.retain\(\|node_msgs\| match Weak::upgrade\(&node_msgs\) \{ Some\(chan_mtx\) => \{ let mut chan_msgs = chan_mtx\.lock\(\)\.unwrap\(\); if let Some\(chan_announce\) = &chan_msgs\.channel_announce \{ let latest_announce = if (.*?) \{ &mut chan_msgs\.latest_node_announce_a \} else \{ &mut chan_msgs\.latest_node_announce_b \}; if (.*?) \{ \*latest_announce = Some\(if let Some\(msg\) = full_msg \{ NodeAnnouncement::Full\(msg\.clone\(\)\) \} else \{ NodeAnnouncement::Unsigned\(msg\.clone\(\)\) \}\); \} found_at_least_one_chan = true; true \}', b,
+           'check_hold_pending_node_announcement')
+    emit('holdNodeIsA', '(node_id_1 node_id : Nat)', 'Bool', m.group(1).replace('*chan_announce.node_id_1()', 'node_id_1'), emh, 'check_hold_pending_node_announcement: slot latest_node_announce_a')
+    emit('holdNodeReplaces', '(latest_announce : Option Nat) (timestamp : Nat)', 'Bool', m.group(2), emh, 'check_hold_pending_node_announcement: the parked announcement is (re)placed')
+    rx(r'if found_at_least_one_chan \{ return Err\(LightningError \{ err: "Awaiting channel_announcement validation to accept node_announcement"', b, 'check_hold_pending_node_announcement: result')
+    # -- pending_channel_announcement_matches / check_channel_announcement
+    _, _, body = find_fn(utxo, 'pending_channel_announcement_matches')
+    rx(r'match &pending_state\.channel_announce \{ Some\(ChannelAnnouncement::Full\(pending_msg\)\) => Some\(pending_msg\) == full_msg, Some\(ChannelAnnouncement::Unsigned\(pending_msg\)\) => pending_msg == msg, None => \{', norm(body), 'pending_channel_announcement_matches')
+    _, _, body = find_fn(utxo, 'check_channel_announcement')
+    b = norm(body)
+    p1 = b.find('Self::check_replace_previous_entry( msg, full_msg, None, &mut self.internal.lock().unwrap().channels, )?;')
+    p2 = b.find('match utxo_lookup { &None => { Ok(None) }, &Some(ref utxo_lookup) => {')
+    p3 = b.find('UtxoResult::Sync(res) => handle_result(res), UtxoResult::Async(future) => {')
+    p4 = b.find('if let Some(res) = async_messages.complete.take() { handle_result(res) } else {')
+    p5 = b.find('pending_states.push(Arc::clone(&future.state));')
+    p6 = b.find('Self::check_replace_previous_entry( msg, full_msg, Some((&future.state, &async_messages)), &mut pending_checks.channels, )?; async_messages.channel_announce = Some(if let Some(msg) = full_msg { ChannelAnnouncement::Full(msg.clone()) } else { ChannelAnnouncement::Unsigned(msg.clone()) }); pending_checks .nodes .entry(msg.node_id_1) .or_default() .push(Arc::downgrade(&future.state)); pending_checks .nodes .entry(msg.node_id_2) .or_default() .push(Arc::downgrade(&future.state)); Err(LightningError { err: "Channel being checked async"')
+    need(0 < p1 < p2 < p3 < p4 < p5 < p6, "check_channel_announcement: shape / order changed (%s)" % [p1, p2, p3, p4, p5, p6])
+    _, _, body = find_fn(utxo, 'check_replace_previous_entry')
+    b = norm(body)
+    rx(r'if pending_matches \{ return Err\(LightningError \{ err: "Channel announcement is already being checked"\.to_owned\(\), action: ErrorAction::IgnoreDuplicateGossip, \}\); \} else \{ if let Some\(item\) = replacement_state \{ \*e\.get_mut\(\) = Arc::downgrade\(item\); \} \}', b, 'check_replace_previous_entry: same message refused, different message replaces the SCID entry')
+    rx(r'hash_map::Entry::Vacant\(v\) => \{ if let Some\(item\) = replacement_state \{ v\.insert\(Arc::downgrade\(item\)\); \} \},', b, 'check_replace_previous_entry: vacant arm')
+    # -- too_many_checks_pending
+    mc = rx(r'const MAX_PENDING_LOOKUPS: usize = (\d+);', utxo, 'MAX_PENDING_LOOKUPS')
+    L.append('def MAX_PENDING_LOOKUPS : Nat := %s' % mc.group(1))
+    L.append('')
+    _, _, body = find_fn(utxo, 'too_many_checks_pending')
+    b = norm(body)
+    m = rx(r'^\{ let mut pending_checks = self\.internal\.lock\(\)\.unwrap\(\); if (pending_checks\.channels\.len\(\) > Self::MAX_PENDING_LOOKUPS) \{ pending_checks\.channels\.retain\(.*?\); pending_checks\.nodes\.retain\(.*?\); (pending_checks\.channels\.len\(\) > Self::MAX_PENDING_LOOKUPS) \} else \{ false \} \}$', b, 'too_many_checks_pending')
+    need(m.group(1) == m.group(2), "too_many_checks_pending: the two tests differ")
+    emit('tooManyChecks', '(channels_len : Nat)', 'Bool', m.group(1).replace('pending_checks.channels.len()', 'channels_len'), Em(env={'channels_len': 'channels_len'}),
+         'too_many_checks_pending (argument = number of SCIDs with a live pending lookup)')
+    # -- resolve_single_future: what is replayed, in which order, THROUGH WHICH ENTRY POINT
+    _, _, body = find_fn(utxo, 'resolve_single_future')
+    b = norm(body)
+    q0 = rx(r'announcement = if let Some\(announcement\) = state\.channel_announce\.take\(\) \{ announcement \} else \{ return; \}; result = if let Some\(result\) = state\.complete\.take\(\) \{ result \} else \{ debug_assert!\(false, "Future should have been resolved"\); return; \}; announce_a = state\.latest_node_announce_a\.take\(\); announce_b = state\.latest_node_announce_b\.take\(\); update_a = state\.latest_channel_update_a\.take\(\); update_b = state\.latest_channel_update_b\.take\(\); \} let resolver = UtxoResolver\(result\);', b, 'resolve_single_future: taking the parked state')
+    q1 = rx(r'match announcement \{ ChannelAnnouncement::Full\(signed_msg\) => \{ if graph\.update_channel_from_announcement\(&signed_msg, &Some\(&resolver\)\)\.is_ok\(\) \{ new_messages\.push\(MessageSendEvent::BroadcastChannelAnnouncement \{ msg: signed_msg, update_msg: None, \}\); \} \}, ChannelAnnouncement::Unsigned\(msg\) => \{ let _ = graph\.update_channel_from_unsigned_announcement\(&msg, &Some\(&resolver\)\); \}, \}', b,
+            'resolve_single_future: the announcement is replayed through update_channel_from_announcement / ..._unsigned_announcement with the resolved lookup')
+    q2 = rx(r'for announce in \[announce_a, announce_b\] \{ match announce \{ Some\(NodeAnnouncement::Full\(signed_msg\)\) => \{ if graph\.update_node_from_announcement\(&signed_msg\)\.is_ok\(\) \{ new_messages \.push\(MessageSendEvent::BroadcastNodeAnnouncement \{ msg: signed_msg \}\); \} \}, Some\(NodeAnnouncement::Unsigned\(msg\)\) => \{ let _ = graph\.update_node_from_unsigned_announcement\(&msg\); \}, None => \{\}, \} \}', b,
+            'resolve_single_future: parked node announcements are replayed through update_node_from_announcement / ..._unsigned_announcement')
+    q3 = rx(r'for update in \[update_a, update_b\] \{ match update \{ Some\(ChannelUpdate::Full\(signed_msg\)\) => \{ (.*?) new_messages\.push\(MessageSendEvent::BroadcastChannelUpdate \{ msg: signed_msg, node_id_1, node_id_2, \}\); \} \}, Some\(ChannelUpdate::Unsigned\(msg\)\) => \{ let _ = graph\.update_channel_unsigned\(&msg\); \}, None => \{\}, \} \}', b,
+            'resolve_single_future: parked channel updates')
+    need(q0.start() < q1.start() < q2.start() < q3.start(), "resolve_single_future: replay order announcement / node announcements / updates changed")
+    full_arm = q3.group(1).strip()
+    m_a = re.fullmatch(r'if graph\.update_channel\(&signed_msg\)\.is_ok\(\) \{', full_arm)
+    m_b = re.fullmatch(r'let res = graph\.update_channel_internal\( ?&signed_msg\.contents, Some\(&signed_msg\), (Some\(&signed_msg\.signature\)|None), (true|false), ?\); if res\.is_ok\(\) \{', full_arm) \
+        or re.fullmatch(r'if graph\.update_channel_internal\( ?&signed_msg\.contents, Some\(&signed_msg\), (Some\(&signed_msg\.signature\)|None), (true|false),? ?\)\.is_ok\(\) \{', full_arm)
+    if m_a: replay = upd_channel
+    elif m_b: replay = (m_b.group(1) != 'None', m_b.group(2) == 'false')
+    else: raise TranslateError("resolve_single_future: the entry point replaying a parked signed channel_update is not recognised: %r" % full_arm)
+    L.append('/-- resolve_single_future, parked SIGNED channel_update: does the entry point it is replayed through check the')
+    L.append('    signature? Rust: `%s` -/' % full_arm)
+    L.append('def replayFullUpdVerifies : Bool := %s' % ('true' if replay[0] else 'false'))
+    L.append('/-- … and does it store the update (only_verify = false)? -/')
+    L.append('def replayFullUpdStores : Bool := %s' % ('true' if replay[1] else 'false'))
+    L.append('')
+    # -- check_resolved_futures: completed states are first removed from all three collections, then replayed in order
+    _, _, body = find_fn(utxo, 'check_resolved_futures')
+    b = norm(body)
+    r1 = rx(r'lck\.pending_states\.retain\(\|state\| \{ if state\.lock\(\)\.unwrap\(\)\.complete\.is_some\(\) \{ completed_states\.push\(Arc::clone\(&state\)\); false \} else \{ if Arc::strong_count\(state\) == 1 \{ false \} else \{ true \} \} \}\);', b, 'check_resolved_futures: pending_states')
+    r2 = rx(r'lck\.channels\.retain\(\|_, state\| \{ if let Some\(state\) = state\.upgrade\(\) \{ if state\.lock\(\)\.unwrap\(\)\.complete\.is_some\(\) \{ completed_states\.push\(state\); false \} else \{ true \} \} else \{ false \} \}\);', b, 'check_resolved_futures: channels')
+    r3 = rx(r'lck\.nodes\.retain\(\|_, lookups\| \{ lookups\.retain\(\|state\| \{ if let Some\(state\) = state\.upgrade\(\) \{ if state\.lock\(\)\.unwrap\(\)\.complete\.is_some\(\) \{ completed_states\.push\(state\); false \} else \{ true \} \} else \{ false \} \}\); !lookups\.is_empty\(\) \}\);', b, 'check_resolved_futures: nodes')
+    r4 = rx(r'for state in completed_states \{ self\.resolve_single_future\(graph, state, &mut res\); \} res \}$', b, 'check_resolved_futures: replay loop')
+    need(r1.start() < r2.start() < r3.start() < r4.start(), "check_resolved_futures: order changed")
+    _, _, body = find_fn(utxo, 'resolve')
+    rx(r'^\{ let mut state = self\.state\.lock\(\)\.unwrap\(\); state\.complete = Some\(result\); state\.notifier\.notify\(\); \}$', norm(body), 'UtxoFuture::resolve')
+    _, _, body = find_fn(src, 'process_completed_checks')
+    rx(r'^\{ let msgs = self\.network_graph\.pending_checks\.check_resolved_futures\(&\*self\.network_graph\);', norm(body), 'P2PGossipSync::process_completed_checks')
+
     L.append('end Gen')
     L.append('end Ldk.Gossip')
     text = '\n'.join(L) + '\n'
